@@ -47,6 +47,12 @@ class Ctx:
         self.I = None
         self.V = {}
         self.E = {}
+        # nested adaptation J(other, None) started from inside a hook / factory
+        self.depth = 0
+        self.J = None
+        self.other = None
+        self.nlog = []
+        self.nres = []
 
     def val(self, v):
         if v not in self.V:
@@ -378,17 +384,77 @@ def build_obj(case, I, ctx):
     return ob
 
 
-def make_hook(i, h, ctx):
+def make_hook(i, h, ctx, nested=None):
+    """adapter_hooks[i].  At depth 0 it logs ["h", i], checks that it is called as hook(I, obj),
+    optionally (nested["at"] == i) adapts ANOTHER object to ANOTHER interface first -- J(other, None),
+    which runs every hook again at depth 1 -- and then answers.  At depth 1 it logs into the nested
+    log, checks that it is called as hook(J, other) and answers nested["nhooks"][i]."""
     def hook(iface, ob):
+        if ctx.depth > 0:
+            ctx.nlog.append(["h", i])
+            if iface is not ctx.J or ob is not ctx.other:
+                ctx.ok = False
+            nh = nested["nhooks"][i]
+            return ctx.val(nh[1]) if nh[0] == "value" else None
         ctx.log.append(["h", i])
         if iface is not ctx.I or ob is not ctx.obj:
             ctx.ok = False
+        if nested is not None and nested["at"] == i:
+            ctx.depth += 1
+            try:
+                r = ctx.J(ctx.other, None)
+            finally:
+                ctx.depth -= 1
+            ctx.nres.append(r)
+            if nested.get("ret"):
+                return r if isinstance(r, Val) else None
         if h[0] == "none":
             return None
         if h[0] == "value":
             return ctx.val(h[1])
         raise ctx.exc(h[1], h[2])
     return hook
+
+
+def build_nested(nested, ctx):
+    """The other interface J and the other object of a nested adaptation."""
+    class J(Interface):
+        pass
+
+    nlog = ctx.nlog
+    conform = nested["conform"]
+
+    class Other:
+        def __getattribute__(self, n):
+            if n in WATCH:
+                nlog.append(WATCH[n])
+            return object.__getattribute__(self, n)
+        if conform[0] != "absent":
+            def __conform__(self, iface):
+                nlog.append(["c"])
+                if iface is not ctx.J:
+                    ctx.ok = False
+                return ctx.val(conform[1]) if conform[0] == "retvalue" else None
+
+    if nested["provides"]:
+        implementer(J)(Other)
+    ctx.J = J
+    ctx.other = Other()
+
+
+def nested_obs(ctx):
+    if not ctx.nres:
+        return None
+    r = ctx.nres[0]
+    if r is ctx.other:
+        out = ["obj"]
+    elif isinstance(r, Val):
+        out = ["val", r.v]
+    elif r is None:
+        out = ["alt"]
+    else:
+        out = ["unknown", type(r).__name__]
+    return {"log": list(ctx.nlog), "out": out}
 
 
 def outcome(f, ctx, alt_given, alt):
@@ -420,7 +486,10 @@ def run_instrumented(case):
     ctx.I = I
     ob = build_obj(case, I, ctx)
     ctx.obj = ob
-    hooks = [make_hook(i, h, ctx) for i, h in enumerate(case["hooks"])]
+    nested = case.get("nested")
+    if nested is not None:
+        build_nested(nested, ctx)
+    hooks = [make_hook(i, h, ctx, nested) for i, h in enumerate(case["hooks"])]
     alt_given = case["alt"] is not None
     alt = None
     if alt_given and case["alt"] != 0:
@@ -432,6 +501,8 @@ def run_instrumented(case):
         aout = outcome(lambda: I.__adapt__(ob), ctx, False, None)
         alog = list(ctx.log)
         del ctx.log[:]
+        del ctx.nlog[:]
+        del ctx.nres[:]
         if not alt_given:
             call = lambda: I(ob)
         elif case.get("kw"):
@@ -442,7 +513,7 @@ def run_instrumented(case):
         log = list(ctx.log)
     finally:
         adapter_hooks[:] = saved
-    return {"log": log, "out": out, "alog": alog, "aout": aout, "ok": ctx.ok}
+    return {"log": log, "out": out, "alog": alog, "aout": aout, "ok": ctx.ok, "nested": nested_obs(ctx)}
 
 
 def run_registry(case):
@@ -480,9 +551,30 @@ def run_registry(case):
     product = None if case["factory_none"] else ctx.val(1)
     calls = []
 
+    nested = case.get("nested")
+    if nested:
+        build_nested({"conform": ["absent"], "provides": False}, ctx)
+
     def factory(o):
         calls.append(o is ob)
+        if nested:
+            # an adapter factory that looks at another object first (nobody adapts it)
+            ctx.depth += 1
+            try:
+                ctx.J(ctx.other, None)
+            finally:
+                ctx.depth -= 1
         return product
+
+    def checker(iface, o):
+        # a second hook after the registry's: must be called as hook(I, obj) / hook(J, other)
+        if ctx.depth > 0:
+            if iface is not ctx.J or o is not ctx.other:
+                ctx.ok = False
+            return None
+        if iface is not I or o is not ob:
+            ctx.ok = False
+        return ctx.val(2)
 
     reg = AdapterRegistry()
     r = case["reg"]
@@ -499,18 +591,19 @@ def run_registry(case):
     if alt_given and case["alt"] != 0:
         alt = Val(-1)
     saved = list(adapter_hooks)
-    adapter_hooks[:] = [reg.adapter_hook]
+    adapter_hooks[:] = [reg.adapter_hook, checker] if nested else [reg.adapter_hook]
     try:
         q = reg.queryAdapter(ob, I)
         qv = None if q is None else (1 if q is product else -7)
         del log[:]
+        del ctx.nlog[:]
         if alt_given:
             out = outcome(lambda: I(ob, alt), ctx, True, alt)
         else:
             out = outcome(lambda: I(ob), ctx, False, None)
         lg = list(log)
-        ok = all(calls)
-        if alt_given and not case["provides"]:
+        ok = all(calls) and ctx.ok
+        if alt_given and not case["provides"] and not nested:
             # the statement's last sentence, literally
             try:
                 direct = I(ob, alt)
